@@ -38,6 +38,7 @@ class Scalar (K : Type) where
   log : K → K
   pow : K → K → K
   floor : K → K
+  ceil : K → K
   pi : K
   ofInt : Int → K
   toInt : K → Int              -- C-style truncation (Warp `int(x)`)
@@ -92,6 +93,7 @@ instance : Scalar Float where
   log := Float.log
   pow := Float.pow
   floor := Float.floor
+  ceil := Float.ceil
   pi := 3.14159265358979323846
   ofInt i := Float.ofInt i
   toInt := floatToInt
@@ -124,6 +126,7 @@ instance : Scalar Float32 where
   log := Float32.log
   pow := Float32.pow
   floor := Float32.floor
+  ceil := Float32.ceil
   pi := (3.14159265358979323846 : Float).toFloat32
   ofInt i := (Float.ofInt i).toFloat32
   toInt := float32ToInt
